@@ -148,6 +148,12 @@ WITNESSES = [
          old="any(idx_counter[s] == 2 for s in delta.idx)", new="all(idx_counter[s] == 2 for s in delta.idx)"),
     dict(id="c20-f31-guard-any-count", prop="C20", file=S, expect="R20a",
          old="any(idx_counter[s] == 2 for s in delta.idx)", new="any(idx_counter[s] >= 2 for s in delta.idx)"),
+    dict(id="c20-evd-targets-inverted", prop="C20", file=F, expect="R20c",
+         old="            target_idx = [s for s, n in indices.items() if not n]\n",
+         new="            target_idx = [s for s, n in indices.items() if n]\n"),
+    dict(id="c20-evd-helper-counts-twice", prop="C20", file=F, expect="R20c",
+         edits=[("            target_idx = [s for s, n in indices.items() if not n]\n", "            target_idx = _indices_on_single_object(expr)\n"),
+                ("    return [s for s, n in counter.items() if n == 1]", "    return [s for s, n in counter.items() if n <= 2]")]),
     # ------------------------------------------------------------------ behaviour-preserving edits
     # the repaired guards spelled differently
     dict(id="c20-ok-f30-twin", prop="C20", file=F, expect=None,
@@ -170,6 +176,13 @@ WITNESSES = [
          new="            collapses = False\n            if term.provided_target_idx is None:\n                for o in obj:\n"
              "                    if o.sympy == delta:\n                        collapses = min(idx_counter[s] for s in delta.idx) == 2\n"
              "            if collapses:\n                continue\n"),
+    # Einstein target detection of evaluate_deltas through sympy's make_args / the private helper (kind of refactoring 5A3)
+    dict(id="c20-ok-evd-make-args", prop="C20", file=F, expect=None,
+         old="            for obj in expr.args:\n                for s in obj.atoms(Index):\n                    if s in indices:",
+         new="            for obj in Mul.make_args(expr):\n                for s in obj.atoms(Index):\n                    if s in indices:"),
+    dict(id="c20-ok-evd-helper-targets", prop="C20", file=F, expect=None,
+         old="            target_idx = [s for s, n in indices.items() if not n]\n",
+         new="            target_idx = _indices_on_single_object(expr)\n"),
     # refactoring D5 (tuple unpacking of the index pairs, membership test in the remainder loop) on the repaired code
     dict(id="c20-ok-d5-unpacking", prop="C20", file=S, expect=None,
          edits=[("            idx1 = obj[i1].idx\n            idx2 = obj[i2].idx\n",
